@@ -764,6 +764,10 @@ type c15Outcome struct {
 	Class     string   `json:"class"`
 	String    string   `json:"string"`
 	Value     string   `json:"value"`
+	// DupKey: dashboard submissions only: the planted member is spelled twice (see c15Dashboard); Original is the
+	// value the base holds at that position
+	DupKey   string `json:"duplicate_key,omitempty"`
+	Original string `json:"-"`
 	Outcome   string   `json:"outcome"`
 	Stage     string   `json:"stage,omitempty"`
 	Error     string   `json:"error,omitempty"`
@@ -1045,6 +1049,21 @@ func c15Dashboard(c *vk.Case, b *c15Base, env *scen.Env, w *c15World, doc map[st
 	src, _ := w.subst(c15Copy(doc["$dash_source"])).(map[string]any)
 	ig, _ := w.subst(c15Copy(doc["$dash_integration"])).(map[string]any)
 	igJSON, _ := json.Marshal(ig)
+	if o.DupKey != "" {
+		// the planted member spelled twice: the hostile value under the exact key, the original value under the same
+		// key in upper case (Go's decoder matches keys without regard to case and keeps the last one; a jsonb column
+		// keeps both members and orders them by key)
+		hv, _ := json.Marshal(o.Value)
+		ov, _ := json.Marshal(o.Original)
+		needle := fmt.Sprintf(`"%s":%s`, o.DupKey, hv)
+		if i := bytes.Index(igJSON, []byte(needle)); i >= 0 && bytes.Count(igJSON, []byte(needle)) == 1 {
+			repl := fmt.Sprintf(`%s,"%s":%s`, needle, strings.ToUpper(o.DupKey), ov)
+			igJSON = bytes.Replace(igJSON, []byte(needle), []byte(repl), 1)
+			c.Obs("duplicate_key_submissions", 1)
+		} else {
+			o.DupKey = ""
+		}
+	}
 	witness["post_save_integration"] = string(igJSON)
 	witness["post_save_source"] = src
 	// the operator has created the table the integration names (when it names one in plain
@@ -1280,6 +1299,12 @@ func c15Run(c *vk.Case) {
 				o := &c15Outcome{Lifecycle: j.lifecycle, Path: c15PathString(p.path), Class: j.class, String: s.ID, Value: s.value(p.val)}
 				if disabled {
 					o.Path += " (integration disabled)"
+				}
+				if s.Hostile && j.lifecycle == "dashboard" && len(p.path) > 1 && p.path[0] == "$dash_integration" && g%3 == 1 {
+					if key, ok := p.path[len(p.path)-1].(string); ok && key != strings.ToUpper(key) {
+						o.DupKey, o.Original = key, p.val
+						o.Path += " (member spelled twice)"
+					}
 				}
 				wit := c15Lifecycle(c, b, doc, j.lifecycle, o)
 				c.SetSig("%s|%s|%s|%s", j.lifecycle, j.class, s.ID, o.Outcome)
